@@ -38,6 +38,17 @@ def default_workers():
         return min(NCPU, 16)
 
 
+def default_heap():
+    """JVM heap for exhaustive TLC runs: VERIF_TLC_HEAP, else /verif/.work/tlc_heap (local throttle), else 8g."""
+    v = os.environ.get("VERIF_TLC_HEAP")
+    if not v:
+        try:
+            v = open(os.path.join(VERIF, ".work", "tlc_heap")).read().strip()
+        except Exception:
+            v = ""
+    return v or "8g"
+
+
 class Inconclusive(Exception):
     pass
 
@@ -108,7 +119,7 @@ class Ctx:
         d = self._spec_dir()
         md = tempfile.mkdtemp(prefix="md-", dir=self.work)
         cmd = ["java", "-XX:+UseParallelGC", "-Xss256m"]
-        cmd.append("-Xmx" + (heap or "8g"))
+        cmd.append("-Xmx" + (heap or default_heap()))
         cmd += ["-cp", TLA_CP, "tlc2.TLC", "-workers", str(workers or default_workers()), "-metadir", md,
                 "-config", os.path.join("cfg", cfg), "-noGenerateSpecTE"]
         if not deadlock:
